@@ -16,6 +16,7 @@ import re
 import shutil
 import tempfile
 import time
+import zlib
 
 from . import core, recipes as R
 from .core import HarnessError, cjson, digest
@@ -43,6 +44,8 @@ def gen_plan(rng, corpus_files=None) -> dict:
 
         corpus_files = _corpus.FILES
     t = R.gen_toggles(rng)
+    # list-valued columns in about one run in twelve (a function of the toggles: no draw, older seeds keep their plans)
+    t["list_cols"] = zlib.crc32(cjson({k: t[k] for k in sorted(t) if k != "list_cols"}).encode()) % 12 == 0
     pal = R.gen_palette_of_specs(rng, t)
     nrec = rng.randint(2, 6)
     recs = [R.gen_recipe(rng, t, pal) for _ in range(nrec)]
@@ -275,6 +278,7 @@ def exec_history(arg) -> dict:
     pristine = dict(state.sweep(), **{"<external: cwd/env/decimal/locale/...>": state.external_digest()}) if do_sweep else None
     s1_0 = state.s1_digest()
     steps_total = 0
+    ext_prev = state.external_probe()
 
     def comp_dumps(doc):
         out = {}
@@ -401,6 +405,11 @@ def exec_history(arg) -> dict:
             else:
                 ev["skipped"] = True
         ev["frames_bad"] = frames_ok()
+        ext = state.external_probe()
+        if ext != ext_prev:
+            # targeting signal only: process-global state OUTSIDE the package differs after this operation
+            ev["external_changed"] = sorted(k for k in ext if ext[k] != ext_prev.get(k))
+            ext_prev = ext
         log.append(ev)
 
     out = {"log": log, "steps": steps_total, "shared_hits": pool.shared_hits,
@@ -721,18 +730,59 @@ CONTEXT_EDITS = [
 ]
 
 
+def external_probe_recipes(rng) -> list:
+    """Documents whose cell text or row measurements pass through state that lives outside the package:
+    list-valued cells (rendered and measured through the data-frame library's own text form), floats, dates,
+    paginated so that a changed measurement moves a page break."""
+    def single(cols, body, nrow):
+        return {"kind": "single", "page": {"nrow": nrow}, "title": {"text": ["Probe"]}, "subline": None,
+                "page_header": None, "page_footer": None, "footnote": None, "source": None,
+                "dfs": [{"cols": cols}], "bodies": [body], "headers": "default"}
+
+    n = rng.choice([24, 30, 45])
+    ids = [f"S{i:02d}" for i in range(n)]
+    long_lists = [[f"Preferred term number {i} with a fairly long description text", "Second"] for i in range(n)]
+    many = [list(range(1, 2 + (i * 5) % 17)) for i in range(n)]
+    floats = [((i * 37) % 1000) / 7.0 for i in range(n)]
+    dates = [f"20{10 + i % 15}-{1 + i % 12:02d}-{1 + i % 28:02d}" for i in range(n)]
+    out = [single([["id", "str", ids], ["terms", "list_str", long_lists]], {"col_rel_width": [1, 3]}, rng.choice([15, 20])),
+           single([["id", "str", ids], ["k", "list_int", many], ["x", "float", floats]],
+                  {"col_rel_width": [2, 1, 1]}, rng.choice([15, 20])),
+           single([["id", "str", ids], ["d", "date", dates], ["x", "float", floats], ["terms", "list_str", long_lists]],
+                  {"col_rel_width": [1, 1, 1, 2], "group_by": ["id"]}, 20)]
+    lite = {"small_nrow": True, "convert": True, "list_cols": True}
+    for _ in range(2):
+        nc = rng.choice([2, 3, 4])
+        out.append(single(R.gen_frame(rng, lite, nc, "plain")["cols"], {"col_rel_width": [1] * nc}, rng.choice([8, 15])))
+    return out
+
+
 def followup_plans(rng, plan: dict, res: dict, limit: int = 3) -> list:
     """Greybox targeting: an encode that changed a component object the document
     holds (a targeting signal, not a verdict - writing a memo is legal) is
     followed up with histories that re-use exactly that object in a *different
     context* and encode both documents in both orders."""
+    out = []
+    ext = [ev for ev in res["log"] if ev.get("external_changed")]
+    if ext and not plan["gen"].get("followup"):
+        # an operation left process-global state OUTSIDE the package changed (display configuration of the data
+        # frame library, environment, decimal context ...): repeat the history up to that operation, then build
+        # and encode documents whose text or measurements go through such state
+        at = ext[0]["i"]
+        probes = external_probe_recipes(rng)
+        recs = json_copy(plan["recipes"]) + probes
+        ops = json_copy(plan["ops"][: at + 1])
+        for n_ in range(len(probes)):
+            ops += [{"op": "construct", "slot": 100 + n_, "recipe": len(plan["recipes"]) + n_,
+                     "share": {c: False for c in SHAREABLE}}, {"op": "encode", "slot": 100 + n_}]
+        out.append({"recipes": recs, "ops": ops, "trace_mode": plan.get("trace_mode", "call"),
+                    "gen": dict(plan["gen"], followup={"external": ext[0]["external_changed"]})})
     dirty = []
     for ev in res["log"]:
         if ev["op"] in ("encode", "construct") and ev.get("dirtied") and ev.get("recipe") is not None:
             for ctype in ev["dirtied"]:
                 if (ev["recipe"], ctype) not in dirty:
                     dirty.append((ev["recipe"], ctype))
-    out = []
     rng.shuffle(dirty)
     for ri, ctype in dirty[:limit]:
         base = json_copy(plan["recipes"][ri])
